@@ -388,7 +388,14 @@ start:
 
 			switch v := instr.(type) {
 			case *ir.Convert:
-				s.set(v, s.get(v.X))
+				if b, ok := v.Type().Underlying().(*types.Basic); ok && b.Kind() == types.UnsafePointer && !typeutil.IsPointerLike(v.X.Type()) {
+					// Converting an integer to unsafe.Pointer. The integer
+					// isn't pointer-like and thus "never nil", but zero
+					// converts to a nil pointer.
+					s.set(v, ValueNilness{MaybeNil, MaybeNil})
+				} else {
+					s.set(v, s.get(v.X))
+				}
 			case *ir.SliceToArrayPointer:
 				// Go does not currently allow (*T)(s) where T is a type
 				// parameter with a type set consisting of array types, but it
